@@ -8,7 +8,7 @@
 EXTENDS KeyCodec
 CONSTANTS PartIds,        \* ids of the key parts used as arguments (strings)
           RawIds,         \* ids usable as raw prefix (NewHashKey prefix / PrefixedHashBuilder first key)
-          Types,          \* subset of {"hash", "phash", "rlp", "raw"}
+          Types,          \* subset of {"hash", "phash", "rlp", "raw", "tkey"}
           MaxBuilders, MaxArgs, MaxParts, MaxOps,
           MaxNew,         \* builders created from scratch (the others are derived with Append)
           ProbeIds,       \* ids of crafted byte strings fed to SplitKeys
@@ -43,6 +43,7 @@ PartBytes(id) ==
     [] id = "L255" -> Fill(255, 201)
     [] id = "L256" -> Fill(256, 202)
     [] id = "L257" -> Fill(257, 203)
+    [] id = "L65536" -> Fill(65536, 204)    \* the first length with a 3-byte size field
 PB(ids) == [i \in 1..Len(ids) |-> PartBytes(ids[i])]
 
 \* crafted inputs of SplitKeys: truncated, non-minimal, list-tagged
@@ -61,6 +62,11 @@ ProbeBytes(id) ==
     [] id = "long2_ok"   -> <<185, 1, 0>> \o Fill(256, 7)
     [] id = "long2_tr"   -> <<185, 1, 1>> \o Fill(256, 7)
     [] id = "long4"      -> <<187, 1, 0, 0, 0, 9>>           \* 2^24 bytes announced
+    [] id = "long3_tr"   -> <<186, 1, 0, 0>> \o Fill(10, 7)       \* 3-byte size field announcing 65536 bytes, truncated
+    [] id = "long3_lz"   -> <<186, 0, 1, 0>> \o Fill(256, 7)      \* 3-byte size field with a leading zero
+    [] id = "long5"      -> <<188, 1, 0, 0, 0, 0, 9>>            \* 5, 6, 7-byte size fields: more than any input holds
+    [] id = "long6"      -> <<189, 1, 0, 0, 0, 0, 0, 9>>
+    [] id = "long7_lz"   -> <<190, 0, 0, 0, 0, 0, 0, 56>> \o Fill(56, 7)
     [] id = "long8_lz"   -> <<191, 0, 0, 0, 0, 0, 0, 0, 56>> \o Fill(56, 7)
     [] id = "list"       -> <<193, 18>>
     [] id = "list_after" -> <<97, 192>>
@@ -87,7 +93,8 @@ Can == Len(hist) < MaxOps
 New(type, rawid, ids) ==
   /\ Len(kbs) < MaxBuilders /\ Len(kbs) < MaxNew
   /\ type \in {"rlp", "raw"} => rawid = ""
-  /\ type = "phash" => rawid # ""
+  /\ type \in {"phash", "tkey"} => rawid # ""
+  /\ type = "tkey" => Len(PartBytes(rawid)) = 1                 \* scoredb.ToKey takes one type byte
   /\ LET raw == IF rawid = "" THEN <<>> ELSE PartBytes(rawid) IN
      kbs' = Append(kbs, [type |-> type, raw |-> raw, parts |-> PB(ids), ids |-> ids])
   /\ Log([op |-> "new", type |-> type, raw |-> rawid, from |-> 0, ps |-> ids, probe |-> "", res |-> Err,
@@ -112,7 +119,7 @@ Spec == Init /\ [][Next]_vars
 
 ----------------------------------------------------------------------------
 (* Properties (C21, key part) *)
-Hashing(kb) == kb.type \in {"hash", "phash", "rlp"}
+Hashing(kb) == kb.type \in {"hash", "phash", "rlp", "tkey"}
 \* composite keys decode back to their parts
 SplitBuild == \A j \in 1..Len(kbs) : Split(Cat(kbs[j].parts)) = [ok |-> TRUE, parts |-> kbs[j].parts]
 \* distinct paths (same builder type, raw prefixes of equal length) give distinct keys
